@@ -1189,6 +1189,9 @@ Proof.
 Qed.
 
 (* the theorems applied to it *)
+Lemma ex_params : params_ok = true /\ tables_ok = true.
+Proof. split; vm_compute; reflexivity. Qed.
+
 Example ex_encode_order :
   exists w w', append_struct env_ex 0 v_ex = put w /\ append_struct env_ex 0 v_ex_swapped = put w'
                /\ tvperm w w' /\ encoded_size env_ex 0 v_ex = encoded_size env_ex 0 v_ex_swapped.
